@@ -179,10 +179,11 @@ def check_registry_and_mro(ctx, R):
     for c in M.subclasses(ds):
         if c is ds:
             continue
-        others = [b for b in c.bases if b is not ds and b.isa(M.stream)]
+        others = [b for b in c.bases if b is not ds and b.isa(M.stream) and not b.isa(ds)]   # the non-Dask (core) node bases
         named = c.name in NAMED
         if others:
-            order_ok = c.mro.index(ds) < c.mro.index(others[0]) and not c.methods
+            own = set(c.methods) - set(getattr(c, 'inherited_private', ()))
+            order_ok = c.mro.index(ds) < c.mro.index(others[0]) and not own
             ch = ctor_chain(M, c)
             ok = order_ok and ch.reaches_stream == 1 and ch.ensure is True and not ch.twice
             detail = ''
